@@ -111,6 +111,8 @@ pub enum Act {
     /// stream: poll repeatedly, dropping every yielded `FnRef` at once, until `Pending` / `None`
     /// (one tight consumer loop — under `coop` inside ONE budget window)
     Drain { run: usize },
+    /// pair sessions with a late second run: create (call the API of) run `run` now
+    Start { run: usize },
 }
 
 impl Act {
@@ -125,6 +127,7 @@ impl Act {
             Act::DropStream { run } => format!("dropstream:{}", run),
             Act::Abort { run } => format!("abort:{}", run),
             Act::Drain { run } => format!("drain:{}", run),
+            Act::Start { run } => format!("start:{}", run),
         }
     }
     pub fn parse(s: &str) -> Option<Act> {
@@ -138,6 +141,7 @@ impl Act {
             "dropstream" => Act::DropStream { run },
             "abort" => Act::Abort { run },
             "drain" => Act::Drain { run },
+            "start" => Act::Start { run },
             _ => return None,
         })
     }
@@ -307,6 +311,8 @@ pub enum Root<'a> {
     Fut(Pin<Box<dyn Future<Output = RetVal> + 'a>>),
     Stream(Pin<Box<dyn Stream<Item = SItem<'a>> + 'a>>),
     Gone,
+    /// not created yet (second run of a pair session with `late`)
+    Late,
 }
 
 pub enum GraphRef<'a> {
@@ -734,6 +740,7 @@ pub struct RunView {
     pub last_poll: Option<String>, // stream: result of the last poll
     pub yielded: usize,
     pub polls: usize,
+    pub not_started: bool,
 }
 
 struct RunSt<'a> {
@@ -781,6 +788,7 @@ pub fn session<'g>(
     cfgs: &[RunCfg],
     coop: bool,
     auto: u8,
+    late: bool,
     shared_intr: Option<&'g mut SharedIntr>,
     out: &mut Vec<String>,
     choose: &mut dyn FnMut(&View, usize) -> Option<Vec<Act>>,
@@ -802,7 +810,8 @@ pub fn session<'g>(
             s2.ev(format!("ev {} handout {}", r, f));
         })));
     }
-    out.push(format!("session k={} coop={} auto={} shared={}", cfgs.len(), coop as u8, auto, (shared_intr.is_some() && cfgs.len() == 1 && cfgs[0].has_opts()) as u8));
+    let late = late && cfgs.len() == 2;
+    out.push(format!("session k={} coop={} auto={} shared={} late={}", cfgs.len(), coop as u8, auto, (shared_intr.is_some() && cfgs.len() == 1 && cfgs[0].has_opts()) as u8, late as u8));
     for (i, c) in cfgs.iter().enumerate() {
         out.push(c.line(i));
     }
@@ -811,6 +820,7 @@ pub fn session<'g>(
     };
 
     let mut runs: Vec<RunSt<'g>> = Vec::new();
+    let mut gshared_opt: Option<&'g FnGraph<TestFn>> = None;
     if cfgs.len() == 1 && cfgs[0].is_mut() {
         let root = make_root(GraphRef::Mut(graph), &cfgs[0], &sh, 0, shared_intr);
         runs.push(RunSt {
@@ -826,8 +836,9 @@ pub fn session<'g>(
         });
     } else {
         let gshared: &'g FnGraph<TestFn> = graph;
+        gshared_opt = Some(gshared);
         for (i, c) in cfgs.iter().enumerate() {
-            let root = make_root(GraphRef::Shared(gshared), c, &sh, i, if cfgs.len() == 1 { shared_intr.take() } else { None });
+            let root = if late && i == 1 { Root::Late } else { make_root(GraphRef::Shared(gshared), c, &sh, i, if cfgs.len() == 1 { shared_intr.take() } else { None }) };
             runs.push(RunSt {
                 cfg: c.clone(),
                 root,
@@ -870,6 +881,7 @@ pub fn session<'g>(
                     last_poll: r.last_poll.clone(),
                     yielded: r.yielded,
                     polls: r.polls,
+                    not_started: matches!(r.root, Root::Late),
                 })
                 .collect(),
         };
@@ -918,12 +930,37 @@ pub fn session<'g>(
                         drain_stream(r, *run, &sh, coop);
                     }
                 }
+                Act::Start { run } => {
+                    if let (Some(r), Some(g)) = (runs.get_mut(*run), gshared_opt) {
+                        if let Root::Late = r.root {
+                            r.root = make_root(GraphRef::Shared(g), &r.cfg, &sh, *run, None);
+                            r.flag.0.store(true, Ordering::SeqCst);
+                            if let Root::Gone = r.root {
+                                sh.ev(format!("ev {} unsupported", run));
+                                r.finished = true;
+                            }
+                        }
+                    }
+                }
                 Act::Drop { run, f } => {
                     if let Some(r) = runs.get_mut(*run) {
                         match r.live.remove(f) {
                             Some(fr) => {
                                 r.flag.0.store(false, Ordering::SeqCst);
-                                let res = catch_unwind(AssertUnwindSafe(move || drop(fr)));
+                                // every fourth function's `FnRef` is dropped by an unwinding panic that the
+                                // consumer survives (`catch_unwind` around a function's work): still a drop
+                                let res = if f % 4 == 3 {
+                                    struct Probe;
+                                    match catch_unwind(AssertUnwindSafe(move || {
+                                        let _fr = fr;
+                                        std::panic::panic_any(Probe)
+                                    })) {
+                                        Err(e) if e.is::<Probe>() => Ok(()),
+                                        other => other,
+                                    }
+                                } else {
+                                    catch_unwind(AssertUnwindSafe(move || drop(fr)))
+                                };
                                 let woken = r.flag.0.load(Ordering::SeqCst);
                                 match res {
                                     Ok(()) => sh.ev(format!("ev {} drop {} woken={}", run, f, woken as u8)),
